@@ -32,6 +32,18 @@ ALREADY = """
 - `update_cache(left_value, self.right_cache)`; `right_cache.keys` taken from the left operand
 - `Concatenate` skipping falsy scalars or classifying by try/except; `is_iterable` by exact type
 - keyword arguments equal to None dropped; a keyword-only symbolic call run without its arguments
+- clearing the lru_cache of `_required_variables_from_child_` on `SymbolicExpression` instead of `type(self)`, or only at the root
+- `IndexedCache.retrieve` following the wildcard branch and the concrete branches both; inner cache levels created as `{}`;
+  a derived `_key_set` computed once; `SeenSet.check` with a shortcut on the values; `HashedValue.__eq__` comparing payloads
+- `HashedIterable.union` with `^`; `HashedIterable` wrapping its source in a helper that skips None / delegating with `yield from`;
+  `self.iterable = []` after exhaustion
+- the replay after `right_cache.check(...)` using another cache; the `BinaryOperator` cache-key filter dropping Flatten
+- `tuple(d.items())` instead of `tuple(sorted(d.items()))` in `ForAll`
+- `concluded_before` keyed by the concluded variable; `AND` assigning `_is_false_` after the duplicate test
+- `let(..., name=...)` building the Variable itself; `flatten` / `concatenate` replacing a quantified sub-query by its `_var_`
+- `Concatenate` keeping the child's other bindings in its row; `ElseIf` dropping `left_value.update(sources)`
+- `DomainMapping` computing `_is_false_` as `v.value == self._invert_`; `Not()` negating a description in place
+- removing the try/finally around `Variable._evaluate_kwargs_expression_`; un-inferring selected variables after the loop only
 """
 TEMPLATE = """# Task
 
